@@ -259,6 +259,18 @@ template <typename T> static void reg(Engine& E, const char* tn) {
   { Op& op = E.add("bitfieldRotate<" + t + ">", op_rotate<T>); op.quick = {product(all.name + " x SHIFT(0..w-1)", {all, range("SHIFT", 0, w, true)})}; op.classes = {"shift=0", "shift>0"}; }
 }
 
+#if GLM_ARCH & GLM_ARCH_SSE2_BIT
+// the raw SSE2 kernels of glm/simd/integer.h (anchor file): 32-bit x and y in the low 64-bit lanes (interleave2) or in the two lanes of one register (interleave);
+// the low 64 bits of the result hold bit i of x at 2i and bit i of y at 2i+1
+static void op_simd_interleave(const Case& c, Outcome& o) {
+  uint32_t x = (uint32_t)c.w[0], y = (uint32_t)c.w[1]; uint64_t want = 0; for (int i = 0; i < 32; ++i) { want |= (uint64_t)((x >> i) & 1) << (2 * i); want |= (uint64_t)((y >> i) & 1) << (2 * i + 1); }
+  uint64_t g2 = (uint64_t)_mm_cvtsi128_si64(glm_i128_interleave2(_mm_set_epi64x(0, x), _mm_set_epi64x(0, y))), g1 = (uint64_t)_mm_cvtsi128_si64(glm_i128_interleave(_mm_set_epi64x(y, x)));
+  o.cls((x | y) >> 16 ? 1 : 0); o.res(g2, g1); o.exp(want, want);
+  if (g2 != want) { o.bad(1, "glm_i128_interleave2(x, y): low 64 bits are not the bit interleave of x and y"); return; }
+  if (g1 != want) { o.bad(2, "glm_i128_interleave(x | y << 64): low 64 bits are not the bit interleave of x and y"); return; }
+}
+#endif
+
 int main(int argc, char** argv) {
   Engine E; E.property = "C18"; E.kf_ids = {"KF-C18-rotate-swapped", "KF-C18-pow-neg-zero"};
   E.assumptions = {"reference = loop-based definitions (nearest power of two / multiple in the named direction, n-th set bit, bit i of operand k at n*i+k) in 128-bit arithmetic"};
@@ -266,6 +278,9 @@ int main(int argc, char** argv) {
   reg<glm::int32>(E, "i32"); reg<glm::uint32>(E, "u32"); reg<glm::int64>(E, "i64"); reg<glm::uint64>(E, "u64");
   { Op& op = E.add("ceil/floor/roundMultiple<float>", op_fmultiple<float>); op.quick = {product("x=k/4,k=-200..200 x 9 multiples", {range("K", 0, 401, true), range("M", 0, 9, true)})}; op.classes = {"already-multiple", "positive-non-multiple", "negative-non-multiple"}; }
   { Op& op = E.add("ceil/floor/roundMultiple<double>", op_fmultiple<double>); op.quick = {product("x=k/4,k=-200..200 x 9 multiples", {range("K", 0, 401, true), range("M", 0, 9, true)})}; op.classes = {"already-multiple", "positive-non-multiple", "negative-non-multiple"}; }
+#if GLM_ARCH & GLM_ARCH_SSE2_BIT
+  { Op& op = E.add("SSE2 kernels glm_i128_interleave / glm_i128_interleave2 (glm/simd/integer.h)", op_simd_interleave); Domain e32 = INT_EDGE(32); op.quick = {product("INT32_EDGE^2", {e32, e32})}; op.classes = {"both below 2^16", "a bit at or above 2^16"}; }
+#endif
   { Op& op = E.add("bitfieldInterleave/Deinterleave 2x8", op_il2_8); op.quick = {range("ALL 2^16 (x,y) pairs", 0, 1ull << 16, true)}; }
   { Op& op = E.add("bitfieldInterleave/Deinterleave 2x16", op_il2_16); Domain e16 = INT_EDGE(16);
     std::vector<uint64_t> pr; for (uint64_t a : *e16.list) for (uint64_t b : *e16.list) pr.push_back(a | (b << 16));
